@@ -177,10 +177,15 @@ def parse_counterexample(message: str, fn):
         assert isinstance(node, ast.Call)
         names = list(inspect.signature(fn).parameters.keys())
         out = {}
+        def lit(a):
+            if isinstance(a, ast.Call) and isinstance(a.func, ast.Name) and a.func.id == "float" and len(a.args) == 1:
+                return float(ast.literal_eval(a.args[0]))
+            return ast.literal_eval(a)
+
         for name, a in zip(names, node.args):
-            out[name] = ast.literal_eval(a)
+            out[name] = lit(a)
         for kw in node.keywords:
-            out[kw.arg] = ast.literal_eval(kw.value)
+            out[kw.arg] = lit(kw.value)
         return out
     except Exception:
         return {"__unparsed__": call_src}
@@ -199,11 +204,17 @@ def run_query(q):
     h.SEL.clear()
     h.SEL.update(q.get("sel") or {})
     h.TWIN = bool(q.get("twin"))
-    h.set_blocks(q.get("blocks") or [])
+    # the reachability twin ignores blocks: it witnesses that the assertion is reachable under the
+    # preconditions, whether or not the witness belongs to a recorded finding
+    h.set_blocks([] if h.TWIN else (q.get("blocks") or []))
     mod = importlib.import_module(q["module"])
+    h.HARNESS[0] = mod
     if hasattr(mod, "setup_query"):
         mod.setup_query(h.SEL)
-    fn = getattr(mod, q["fn"])
+    if hasattr(mod, "make_fn"):
+        fn = mod.make_fn(q["fn"], h.SEL, q.get("id", "q"))
+    else:
+        fn = getattr(mod, q["fn"])
     timeout = float(q.get("timeout", 60))
     opts = AnalysisOptionSet(
         per_condition_timeout=timeout,
